@@ -583,6 +583,46 @@ func runCsvRT(args []string) (result string) {
 			}
 		}
 	}
+	// … and a narrower file (the column "I" is absent): a reader that has seen wider headers before must leave the field at zero
+	{
+		raw, _ := os.ReadFile(file2)
+		recs, err := csv.NewReader(bytes.NewReader(raw)).ReadAll()
+		if err == nil && len(recs) > 0 {
+			drop := -1
+			for j, h := range recs[0] {
+				if h == "I" {
+					drop = j
+				}
+			}
+			if drop >= 0 {
+				var buf bytes.Buffer
+				w := csv.NewWriter(&buf)
+				for _, rec := range recs {
+					w.Write(append(append([]string{}, rec[:drop]...), rec[drop+1:]...))
+				}
+				w.Flush()
+				file3 := filepath.Join(dir, "t3.csv")
+				os.WriteFile(file3, buf.Bytes(), 0o600)
+				for _, inst := range []*helper.Csv[allKinds]{c2, c3} {
+					chn, err := inst.ReadFromFile(file3)
+					if err != nil {
+						return "ERR read-narrow " + err.Error()
+					}
+					gn := helper.ChanToSlice(chn)
+					if len(gn) != len(want) {
+						return fmt.Sprintf("diff narrower-file count %d != %d", len(gn), len(want))
+					}
+					for i := range want {
+						w2 := *want[i]
+						w2.I = 0
+						if d := sameAllKinds(&w2, gn[i]); d != "" && !crlfOnly(&w2, gn[i]) {
+							return fmt.Sprintf("diff narrower-file row %d %s", i, d)
+						}
+					}
+				}
+			}
+		}
+	}
 	return fmt.Sprintf("ok %d crlf=%d", n, crlf)
 }
 
